@@ -230,6 +230,17 @@ pub fn std_chunks_exact_try_map<T, F: Fn(&[u8]) -> Result<T, IggyError>>(buf: &V
             && call_ensures(f, (c,), Err::<T, IggyError>(e)) && trig_int(i),
 { unimplemented!() }
 pub open spec fn trig_int(i: int) -> bool { true }
+// The sibling adapter `buf.chunks(n)` (std semantics): like chunks_exact, PLUS a final shorter chunk holding the remainder when
+// buf.len() is not a multiple of n — so the mapped function must accept that shorter chunk too. Offered so that an edit from
+// chunks_exact to chunks is decided by the callee's precondition instead of ending as a lost anchor (seed C04_2).
+#[verifier::external_body]
+pub fn std_chunks_try_map<T, F: Fn(&[u8]) -> Result<T, IggyError>>(buf: &Vec<u8>, n: usize, f: F) -> (r: Result<Vec<T>, IggyError>)
+    requires
+        n > 0,
+        forall|c: &[u8]| (c@.len() == n || (c@.len() == buf@.len() % (n as nat) && c@.len() > 0)) ==> call_requires(f, (c,)),
+    ensures
+        r matches Ok(v) ==> v@.len() == (buf@.len() + n - 1) as int / (n as int),
+{ unimplemented!() }
 
 // ---- the consumer-offset file (A-io): one file per consumer, overwritten on every store -----------------------------------------
 // `Arc<PersisterKind>` -> `Persister` whose ghost state is the content of the file last overwritten; `&str` paths -> opaque PathName.
